@@ -6,6 +6,7 @@ import (
 	"errors"
 	"fmt"
 	"io"
+	"sort"
 	"strings"
 	"time"
 
@@ -26,6 +27,8 @@ type StageSc struct {
 	Wrap    bool   `json:"wrap,omitempty"`    // hands a wrapped context on (marker value)
 	Ret     string `json:"ret,omitempty"`     // "" last result | first | fab (fabricated result) | err ((nil, err))
 	Yield   bool   `json:"yield,omitempty"`
+	// Parallel: the stage issues its continuation calls concurrently (hedging / fan-out) and waits for all of them
+	Parallel bool `json:"parallel,omitempty"`
 	// Stock: the stage is one of the library's own middlewares (transparent for the model):
 	// timeout | timeout0 | correlation | debug
 	Stock string `json:"stock,omitempty"`
@@ -40,6 +43,7 @@ type C19Sc struct {
 func genStage(g *simrt.Tape) StageSc {
 	st := StageSc{Calls: []int{1, 1, 1, 0, 2, 2, 3}[g.Draw(7)], Replace: g.Draw(3) == 0, Wrap: g.Draw(3) == 0, Yield: g.Draw(3) == 0}
 	st.Ret = []string{"", "", "", "first", "fab", "err"}[g.Draw(6)]
+	st.Parallel = st.Calls >= 2 && g.Draw(3) == 0
 	return st
 }
 
@@ -81,7 +85,7 @@ func decodeC19(raw json.RawMessage) (any, error) {
 
 // the 9-behaviour alphabet of the floor
 var c19Alphabet = []StageSc{
-	{Calls: 1}, {Calls: 0, Ret: "fab"}, {Calls: 0, Ret: "err"}, {Calls: 2}, {Calls: 3, Ret: "first"},
+	{Calls: 1}, {Calls: 0, Ret: "fab"}, {Calls: 0, Ret: "err"}, {Calls: 2}, {Calls: 3, Ret: "first"}, {Calls: 2, Parallel: true},
 	{Calls: 1, Replace: true}, {Calls: 1, Wrap: true}, {Calls: 2, Replace: true, Wrap: true}, {Calls: 1, Ret: "err"},
 }
 
@@ -253,8 +257,9 @@ func (cr *chainRun) msgStage(i int) func(next func(context.Context, *kmip.Reques
 		req, mm := markerOfToken(reqTokenOf(msg))
 		cm := ctxMarkOf(ctx)
 		cr.rec(req, fmt.Sprintf("enter s%d ctx=%s msg=%s", i, cm, mm))
-		var results []*kmip.ResponseMessage
-		var errs []error
+		results := make([]*kmip.ResponseMessage, st.Calls)
+		errs := make([]error, st.Calls)
+		pending := 0
 		for k := 0; k < st.Calls; k++ {
 			if st.Yield {
 				cr.s.YieldNow("stage-dally")
@@ -266,14 +271,25 @@ func (cr *chainRun) msgStage(i int) func(next func(context.Context, *kmip.Reques
 			if st.Replace {
 				m = cloneReqWithMark(msg, fmt.Sprintf("~s%dc%d", i, k))
 			}
-			r, err := next(c, m)
-			id := respIdentity(r)
-			if err != nil {
-				id = err.Error()
+			call := func(k int) {
+				r, err := next(c, m)
+				id := respIdentity(r)
+				if err != nil {
+					id = err.Error()
+				}
+				cr.rec(req, fmt.Sprintf("s%d got %s err=%v", i, id, err != nil))
+				results[k], errs[k] = r, err
 			}
-			cr.rec(req, fmt.Sprintf("s%d got %s err=%v", i, id, err != nil))
-			results = append(results, r)
-			errs = append(errs, err)
+			if st.Parallel {
+				pending++
+				k := k
+				cr.s.Spawn("hedge", func() { defer func() { pending-- }(); call(k) })
+			} else {
+				call(k)
+			}
+		}
+		if st.Parallel {
+			cr.s.WaitUntil("hedged-calls-done", func() bool { return pending == 0 })
 		}
 		switch {
 		case st.Ret == "err":
@@ -298,8 +314,9 @@ func (cr *chainRun) itemStage(i int) kmipserver.BatchItemMiddleware {
 		req, mm := markerOfToken(tok)
 		cm := ctxMarkOf(ctx)
 		cr.rec(req, fmt.Sprintf("enter s%d ctx=%s msg=%s", i, cm, mm))
-		var results []*kmip.ResponseBatchItem
-		var errs []error
+		results := make([]*kmip.ResponseBatchItem, st.Calls)
+		errs := make([]error, st.Calls)
+		pending := 0
 		for k := 0; k < st.Calls; k++ {
 			if st.Yield {
 				cr.s.YieldNow("stage-dally")
@@ -313,14 +330,25 @@ func (cr *chainRun) itemStage(i int) kmipserver.BatchItemMiddleware {
 				cp.RequestPayload = &payloads.ActivateRequestPayload{UniqueIdentifier: withMsgMark(tok, fmt.Sprintf("~s%dc%d", i, k))}
 				b = &cp
 			}
-			r, err := next(c, b)
-			id := itemIdentity(r)
-			if err != nil {
-				id = err.Error()
+			call := func(k int) {
+				r, err := next(c, b)
+				id := itemIdentity(r)
+				if err != nil {
+					id = err.Error()
+				}
+				cr.rec(req, fmt.Sprintf("s%d got %s err=%v", i, id, err != nil))
+				results[k], errs[k] = r, err
 			}
-			cr.rec(req, fmt.Sprintf("s%d got %s err=%v", i, id, err != nil))
-			results = append(results, r)
-			errs = append(errs, err)
+			if st.Parallel {
+				pending++
+				k := k
+				cr.s.Spawn("hedge", func() { defer func() { pending-- }(); call(k) })
+			} else {
+				call(k)
+			}
+		}
+		if st.Parallel {
+			cr.s.WaitUntil("hedged-calls-done", func() bool { return pending == 0 })
 		}
 		switch {
 		case st.Ret == "err":
@@ -474,6 +502,23 @@ func execC19(x *X, scAny any) {
 		wantRes, wantErr := m.run(0, "", "")
 		want := m.trace
 		got := cr.traces[name]
+		anyParallel := false
+		for _, st := range sc.Stages {
+			anyParallel = anyParallel || st.Parallel
+		}
+		if sc.Driver == "client" {
+			// the client core cannot observe the context: mask that column of the model's core events
+			for i, e := range want {
+				if strings.HasPrefix(e, "core ") {
+					want[i] = "core ctx=* " + e[strings.Index(e, "msg="):]
+				}
+			}
+		}
+		if anyParallel {
+			// concurrent continuation calls interleave freely: the same events must occur, in any order
+			got, want = sortedCopy(got), sortedCopy(want)
+			cr.traces["__core__"+name] = sortedCopy(cr.traces["__core__"+name])
+		}
 		if sc.Driver != "client" {
 			// merge: the model's trace interleaves core events; compare stage events and core events separately
 			var wantStage, wantCore []string
@@ -483,6 +528,9 @@ func execC19(x *X, scAny any) {
 				} else {
 					wantStage = append(wantStage, e)
 				}
+			}
+			if anyParallel {
+				wantCore = sortedCopy(wantCore)
 			}
 			gotCore := cr.traces["__core__"+name]
 			if strings.Join(got, "\n") != strings.Join(wantStage, "\n") {
@@ -494,12 +542,6 @@ func execC19(x *X, scAny any) {
 				return
 			}
 		} else {
-			// the client core cannot observe the context: compare with the context column of core events masked
-			for i, e := range want {
-				if strings.HasPrefix(e, "core ") {
-					want[i] = "core ctx=* " + e[strings.Index(e, "msg="):]
-				}
-			}
 			if strings.Join(got, "\n") != strings.Join(want, "\n") {
 				x.Reportf("C19.chain-trace", sc.Driver+":"+traceDiffClass(got, want), "%s chain %s, request %s:\n got: %s\nwant: %s", sc.Driver, stagesDesc(sc.Stages), name, strings.Join(got, " | "), strings.Join(want, " | "))
 				return
@@ -573,4 +615,10 @@ func init() {
 		},
 		Assumptions: []string{"the client core cannot observe the context it is given; context hand-over is checked at every stage entry instead", "rewriter is semantics-preserving"},
 	})
+}
+
+func sortedCopy(in []string) []string {
+	out := append([]string{}, in...)
+	sort.Strings(out)
+	return out
 }
